@@ -1,32 +1,30 @@
 from props import Prop, Stream, reg
 
 reg(Prop('C07', [
-    Stream('c07.decode', 20000, 1000000, 'model', shards=3, exhaustive='every opcode byte 0x00-0xff; opcodes with operands: x 55 boundary operand tails x address size 1/2/4/8 x format x version 2/5 x endianity; all opcodes: odd address sizes 0/3/16/255'),
-    Stream('c07.ops', 5000, 300000, 'model', shards=3, exhaustive='every opcode byte as the first operation of an expression (OperationIter stops after the first error)'),
-    Stream('c07.value', 20000, 1000000, 'model', shards=3, exhaustive='every Value operation x every pair of value types x boundary operands x address masks (incl. masks that are not 2^k-1); shift counts 0..70 in every integer type; convert/reinterpret to every type; Value::parse lengths 0..9'),
-    Stream('c07.eval', 20000, 1000000, 'model', shards=3, exhaustive='every program of length <= 3 over the 41-letter alphabet of DESIGN C07 after a 3-deep prelude, address sizes 1/2/4/8 (thorough: length 4 at size 4, second prelude length 3); with initial value / fixed-capacity storage: length <= 2; Evaluation::new for every address size 0..255; iteration-limit sweeps 0..9'),
-    Stream('c07.spec', 10000, 500000, 'spec', shards=3, exhaustive='every Value operation x matching type pairs x boundary operands x address sizes 1/2/4/8, generic results reduced modulo the address size, against the specification algebra (Spec/StackSpec.v); class k = generic shift counts beyond the address size (known finding) incl. evaluator-level witnesses'),
+    Stream('c07.decode', 20000, 1000000, 'model', exhaustive='every opcode byte 0x00-0xff; opcodes with operands: x 55 boundary operand tails x address size 1/2/4/8 x format x version 2/5 x endianity; all opcodes: odd address sizes 0/3/16/255'),
+    Stream('c07.ops', 5000, 300000, 'model', exhaustive='every opcode byte as the first operation of an expression (OperationIter stops after the first error)'),
+    Stream('c07.value', 20000, 1000000, 'model', exhaustive='every Value operation x every pair of value types x boundary operands x address masks (incl. masks that are not 2^k-1); shift counts 0..70 in every integer type; convert/reinterpret to every type; Value::parse lengths 0..9'),
+    Stream('c07.eval', 20000, 1000000, 'model', exhaustive='every program of length <= 3 over the 41-letter alphabet of DESIGN C07 after a 3-deep prelude, address sizes 1/2/4/8 (thorough: length 4 at size 4, second prelude length 3); with initial value / fixed-capacity storage: length <= 2; Evaluation::new for every address size 0..255; iteration-limit sweeps 0..9'),
+    Stream('c07.spec', 10000, 500000, 'spec', exhaustive='every Value operation x matching type pairs x boundary operands x address sizes 1/2/4/8, generic results reduced modulo the address size, against the specification algebra (Spec/StackSpec.v); class k = generic shift counts beyond the address size (defect repaired in 0858756, now an agreeing class) incl. evaluator-level witnesses; whole evaluations against the normalised machine'),
 ], level='proof', design_ref='§5 C07',
     clauses=[
         'decode_table: Operation::parse = table-driven decode of the DWARF 5 operand layout, all 256 opcode bytes, every encoding, both build modes',
         'decode_roundtrip: parse (canonical encoding of o ++ rest) = (o, rest) for every well-formed operation',
         'decode_no_panic / decode_consumes / decode_build_mode_independent / operations_terminate',
         'value_ops: every Value operation (add sub mul div rem and or xor not neg abs shl shr shra eq ge gt le lt ne convert reinterpret), canonicalised, equals the stack-machine algebra on canonical values, address sizes 1/2/4/8, every fops',
-        'mask_invariance_partial (per operation) + shift_count_refuted (witness of the known finding)',
+        'mask_invariance_partial: per operation, every operation incl. shift counts (the lift through the evaluator is correspondence-only)',
         'pc_in_bounds (invariant of every evaluator step) + branch_target_exact (compute_pc accepts exactly 0 <= target <= len)',
-        'iteration_bound: with max_iterations = Some n (n < u32::MAX) every conversation terminates within fuel n+1, never panics, <= n operations evaluated and <= 2n decoded',
+        'iteration_bound: with max_iterations = Some n, every u32 n, every conversation terminates within fuel n+1, never panics, <= n operations evaluated and <= 2n decoded; iteration_unlimited: no limit => counter untouched; eval_no_panic for any limit or none',
         'pieces: shape of result()/value_result() after completion (unsized piece is the only piece; implicit Address piece of the value result)',
         'normalised_machine_canonical: the specification oracle of c07.spec (model with every generic value reduced when pushed) keeps its stack canonical',
-        'iteration_limit_u32_max_refuted: max_iterations = u32::MAX does not bound a looping expression (debug panic / release non-termination in the model)',
     ],
     explored_only=[
         'float arithmetic results (+ - * /, float<->integer and f32<->f64 conversions are the section record fops; the driver instantiates it with hardware doubles and exact Zarith conversions)',
         'eval_refines / whole-evaluation mask invariance: the lifting of the per-operation theorems through evaluate_one_operation is checked by correspondence only (c07.eval mirrors the code, c07.spec compares gimli with the specification algebra and evaluator-level witnesses)',
         'the request/answer protocol (exactly the register / memory range / base type / index the operation names): stated by the model evaluator, tied by c07.eval full traces',
-        'iteration counter overflow at max_iterations = u32::MAX (excluded by hypothesis; by inspection debug panics / release wraps after 2^32 iterations)',
     ],
     assumptions=['usize = u64 (ReaderOffset::from_u64 cannot fail)', 'EndianSlice reader'],
-    level_text='Coq theorems over a Gallina model of Operation::parse, Value arithmetic and Evaluation: the decoder equals the DWARF 5 operand-layout table for all 256 opcode bytes and round-trips the canonical encoder; every Value operation equals the stack machine\'s algebra modulo the address size (per-operation signedness, shift/width rules) for address sizes 1/2/4/8 and any IEEE implementation; the pc stays inside the bytecode and branch targets are accepted exactly in [0,len]; with an iteration limit every evaluation (all programs, answers, configurations, both build modes) terminates within the bound without panic; completed results have the documented piece shape. Known finding: generic shift counts are not reduced modulo the address size (shift_count_refuted). Tied to gimli by ~1.5M cases per quick run, exhaustive over opcode bytes and short programs.',
+    level_text='Coq theorems over a Gallina model of Operation::parse, Value arithmetic and Evaluation: the decoder equals the DWARF 5 operand-layout table for all 256 opcode bytes and round-trips the canonical encoder; every Value operation equals the stack machine\'s algebra modulo the address size (per-operation signedness, shift/width rules) for address sizes 1/2/4/8 and any IEEE implementation; the pc stays inside the bytecode and branch targets are accepted exactly in [0,len]; with an iteration limit every evaluation (all programs, answers, configurations, both build modes) terminates within the bound without panic; completed results have the documented piece shape. Two defects found by this check were repaired in gimli (0858756 shift counts modulo the address size, 273f60c iteration limit compared before counting); the theorems are now stated without exceptions. Tied to gimli by ~1.5M cases per quick run, exhaustive over opcode bytes and short programs.',
     level_note='Partial: whole-evaluation refinement to the spec machine and float arithmetic are correspondence-only. Trusted: Coq kernel, the hand-written models (tied by differential execution in debug+release), OCaml/Rust/Python glue incl. the float glue of the driver.',
     technique='Coq proof over a Gallina model of Operation::parse, Value arithmetic and Evaluation (request/answer traces) + differential correspondence with gimli (debug+release) + spec-algebra oracle stream',
 ))
